@@ -53,6 +53,15 @@ def firstWrongResult (rs : List (Nat × FileResult)) (tags : List FileResult) : 
     | some i => some i
     | none => if resultOf rs n = tags[n]? then none else some n
 
+/-- the hypotheses of the driver theorems on a configuration (`DWf`, Lemmas/CliSimBase.lean), as a
+    test: test-case names pairwise distinct, database names `<test case name>_<8 characters>`, none of
+    them the management database -/
+def dwfB (c : DCfg) (mgmt : Str) : Bool :=
+  decide ((c.files.map (fun f => testCaseName f.path)).Nodup) &&
+  c.files.all (fun f => decide (f.db.length = (testCaseName f.path).length + 9) &&
+    (testCaseName f.path ++ ['_']).isPrefixOf f.db) &&
+  c.files.all (fun f => decide (f.db ≠ mgmt))
+
 def traceCheck (c : DCfg) (labels : List DLabel) (observed : List CEv) (tags : List FileResult) :
     TraceVerdict :=
   match drunAt c (dinit c) labels 0 with
